@@ -253,9 +253,10 @@ fn cancels_out(zone: &Snap, msg: &Msg) -> bool {
 
 #[derive(Default)]
 struct Renamer {
+    /// names that own a zone element or an atom (only these count for the "below" relation)
+    owners: Vec<Labels>,
     names: Vec<Labels>,
     addrs: Vec<Vec<u8>>,
-    txts: Vec<Vec<u8>>,
     outs: Vec<Labels>,
     ttls: Vec<u32>,
     mins: Vec<u32>,
@@ -291,7 +292,7 @@ impl Renamer {
         // nearest strict ancestor among the witness names
         let mut anc: Option<usize> = None;
         for (j, y) in self.names.iter().enumerate() {
-            if j != id && y.len() < n.len() && is_ancestor_or_self(y, n) && anc.map(|a| self.names[a].len() < y.len()).unwrap_or(true) {
+            if j != id && y.len() < n.len() && is_ancestor_or_self(y, n) && self.owners.contains(y) && self.owners.contains(n) && anc.map(|a| self.names[a].len() < y.len()).unwrap_or(true) {
                 anc = Some(j);
             }
         }
@@ -317,8 +318,8 @@ impl Renamer {
             return "-".into();
         }
         match r.rtype {
-            ru::T_A => format!("a{}", intern(&mut self.addrs, &r.rdata)),
-            ru::T_TXT => format!("t{}", intern(&mut self.txts, &r.rdata)),
+            // A and TXT are the universe's plain data types: RFC 2136 treats them alike
+            ru::T_A | ru::T_TXT => format!("d{}", intern(&mut self.addrs, &r.rdata)),
             ru::T_NS | ru::T_CNAME => match rdata_target(r) {
                 Some(t) => self.name(&t),
                 None => "?".into(),
@@ -370,6 +371,14 @@ pub fn render(zone: &Snap, msg: &Msg, cur: u32) -> String {
         }
     }
     let atoms = || msg.prereqs.iter().chain(msg.updates.iter());
+    rn.owners = atoms().map(|r| r.name.clone()).chain(zone.rrs.iter().map(|r| r.name.clone())).chain(zone.empty_keys.iter().map(|(n, _)| n.clone())).collect();
+    let tname = |t: u16| -> String {
+        if t == ru::T_A || t == ru::T_TXT {
+            "D".into()
+        } else {
+            vupd::type_name(t)
+        }
+    };
     let touches_apex_ns = atoms().any(|r| r.name == o && (r.rtype == ru::T_NS || r.rtype == ru::T_ANY));
     let apex_ns = zone.rrs.iter().filter(|r| r.name == o && r.rtype == ru::T_NS).count();
     let touches_apex_soa = atoms().any(|r| r.name == o && r.rtype == ru::T_SOA);
@@ -379,7 +388,7 @@ pub fn render(zone: &Snap, msg: &Msg, cur: u32) -> String {
         let data_atom = !is_prereq && r.class == ru::CLASS_IN;
         let t = if data_atom { rn.ttl_data(r.ttl) } else { rn.ttl_meta(r.ttl) };
         let plain_type = matches!(r.rtype, ru::T_A | ru::T_TXT | ru::T_NS | ru::T_CNAME | ru::T_SOA);
-        let ty = if is_prereq && r.rdata.is_empty() && plain_type && !holds(&r.name, r.rtype) { "~".to_string() } else { vupd::type_name(r.rtype) };
+        let ty = if is_prereq && r.rdata.is_empty() && plain_type && !holds(&r.name, r.rtype) { "~".to_string() } else { tname(r.rtype) };
         let rd = rn.rdata(r, cur);
         format!("{n} {t} {} {ty} {rd}", vupd::class_name(r.class))
     };
@@ -396,10 +405,10 @@ pub fn render(zone: &Snap, msg: &Msg, cur: u32) -> String {
         let n = rn.name(&r.name);
         let t = rn.ttl_data(r.ttl);
         let rd = rn.rdata(r, cur);
-        zs.push(format!("{n} {t} {} {} {rd}", vupd::class_name(r.class), vupd::type_name(r.rtype)));
+        zs.push(format!("{n} {t} {} {} {rd}", vupd::class_name(r.class), tname(r.rtype)));
     }
     for (n, t) in &zone.empty_keys {
-        zs.push(format!("{} <empty {} key>", rn.name(n), vupd::type_name(*t)));
+        zs.push(format!("{} <empty {} key>", rn.name(n), tname(*t)));
     }
     zs.sort();
     format!("zone{{{}}} msg{{P[{}] U[{}]}}", zs.join("; "), ps.join("; "), us.join("; "))
